@@ -55,59 +55,7 @@
 #define VF_THROW 0
 #endif
 
-// ------------------------------------------------------- small-buffer allocator (contract stub)
-struct Blk {
-  void* p;
-  size_t ordinal;
-  int32_t live;
-};
-#ifndef VF_MAXBLK
-#define VF_MAXBLK 1
-#endif
-enum { kMaxBlk = VF_MAXBLK };
-static Blk g_blk[kMaxBlk];
-static int32_t g_nblk;
-static int32_t g_live_blocks;
-static int32_t g_frees;
-
-namespace dispenso {
-namespace detail {
-// Contract of the small-buffer pool: a fresh block of (4 << ordinal) bytes; a block goes back to the
-// pool it came from, once.
-char* allocSmallBufferImpl(size_t ordinal) {
-  VfAtomic a;
-  char* p = static_cast<char*>(::malloc(size_t{4} << ordinal));
-  vf_check(g_nblk < kMaxBlk, "harness bound: number of small-buffer blocks");
-  if (g_nblk < kMaxBlk) {
-    g_blk[g_nblk].p = p;
-    g_blk[g_nblk].ordinal = ordinal;
-    g_blk[g_nblk].live = 1;
-    ++g_nblk;
-    ++g_live_blocks;
-  }
-  return p;
-}
-static inline bool blk_release(int32_t i, size_t ordinal, void* buf) {
-  if (i < g_nblk && g_blk[i].p == buf && g_blk[i].live == 1) {
-    vf_check(g_blk[i].ordinal == ordinal, "small-buffer block is returned to the pool it came from");
-    g_blk[i].live = 0;
-    --g_live_blocks;
-    ++g_frees;
-    return true;
-  }
-  return false;
-}
-void deallocSmallBufferImpl(size_t ordinal, void* buf) {
-  VfAtomic a;
-  bool found = blk_release(0, ordinal, buf) || (kMaxBlk > 1 && blk_release(1, ordinal, buf)) ||
-      (kMaxBlk > 2 && blk_release(2, ordinal, buf)) || (kMaxBlk > 3 && blk_release(3, ordinal, buf));
-  vf_check(found, "deallocSmallBuffer is called with a live block (no double release)");
-  if (found) {
-    ::free(buf);
-  }
-}
-} // namespace detail
-} // namespace dispenso
+#include "sba_stub.h"
 
 // ------------------------------------------------------------------------------------ ghost state
 static int32_t g_runs;          // invocations of the functor
